@@ -50,6 +50,14 @@ THEOREMS = [
     "Arca.Props.C13.abort_release_harmless",
     "Arca.Props.C13.aborted_items_are_reported_as_errors",
     "Arca.Props.C13.closed_pool_accounts_for_every_item",
+    # the pool model has no timer: time facts of the provider (regenerated), what a timer may do, what it must not do
+    "Arca.Props.C13.foreach_pool_has_no_timer",
+    "Arca.Props.C13.queued_items_wait_for_slot_or_close_only",
+    "Arca.Props.C13.parallelism_bound_with_timer",
+    "Arca.Props.C13.timer_schedule_is_pool_schedule",
+    "Arca.Props.C13.timer_start_without_slot_breaks_bound",
+    "Arca.Props.C13.close_parked_no_new_start",
+    "Arca.Props.C13.close_parked_work_bounded_by_parallelism",
 ]
 
 
@@ -245,6 +253,8 @@ def mon_c13_foreach(case, verdict, chk):
             chk.violation("C13:item-run-count", "item %s ran %d times" % (key, n), rep)
             return
     if cancelled:
+        if check_late_starts("C13", case, chk, rep):
+            return
         mon_closed_output(case, res, chk, rep)
         return
     # the step output, as returned verbatim by the parent
@@ -329,6 +339,98 @@ def mon_closed_output(case, res, chk, rep):
                           sorted(set(range(n)) - keys)[:20], rep)
 
 
+# ---- closing: what may still START after the caller's cancel (C06 / C13) ---------------------------------------------------------
+#
+# Counted on the plugin-side log by sequence numbers only (no wall time).  c = the `ctx-cancel` entry.  An item run BEGINS with
+# the deployment of its plugin (`deploy-begin`, written when Deploy is entered).  A run that begins after c needs a slot:
+# either it already held one at c (at most `parallelism` runs do), or a slot was given back after c.  A slot is given back
+# by an item that ENDS; an item that ends because it was cancelled does so after the loop was closed, when every queued
+# item has been woken on the close arm of its select - so only NORMAL ends after c (exec-end with an output other than
+# `cancelled`) can let a queued item in.  Hence
+#       #deploy-begin after c  <=  parallelism + #normal item ends after c   (+ RACE_SLACK)
+# RACE_SLACK covers item goroutines that had not yet reached their select when the loop was closed (Go picks among ready
+# select arms at random; only possible in the first instants of a loop).  Nested loops are left out: the close reaches the
+# inner loops one level later, inner items legitimately keep starting in between.
+
+RACE_SLACK = 2
+
+
+def late_starts(case):
+    """(begun after cancel, allowed, details) or None when the oracle does not apply"""
+    if not case.get("cancelled") or case.get("nested"):
+        return None
+    log = case.get("log", [])
+    c = next((e["seq"] for e in log if e["ev"] == "ctx-cancel"), None)
+    if c is None:
+        return None
+    if not any(e["ev"] == "deploy-begin" for e in log) and any(e["ev"] == "deploy" for e in log):
+        return None  # a log without deploy-begin entries (older harness)
+    begun = [e for e in log if e["ev"] == "deploy-begin" and e["seq"] > c]
+    normal_ends = [e for e in log if e["ev"] == "exec-end" and e["seq"] > c and e.get("out") != "cancelled"]
+    allowed = int(case["parallelism"]) + len(normal_ends) + RACE_SLACK
+    return len(begun), allowed, {"cancel_seq": c, "deploy_begin_after_cancel": [e["seq"] for e in begun][:50],
+                                 "normal_item_ends_after_cancel": len(normal_ends), "parallelism": case["parallelism"],
+                                 "last_seq": log[-1]["seq"] if log else 0}
+
+
+def check_late_starts(pid, case, chk, rep):
+    ls = late_starts(case)
+    if ls and ls[0] > ls[1]:
+        chk.violation(pid + ":queued-items-started-after-cancel",
+                      "%d item runs BEGAN (plugin deployments) after the caller's context was cancelled; at most %d can have held "
+                      "or obtained a slot (parallelism %d + %d items that ended normally after the cancel + %d); %d items were given" %
+                      (ls[0], ls[1], case["parallelism"], ls[2]["normal_item_ends_after_cancel"], RACE_SLACK, case["n"]),
+                      dict(rep, after_cancel=ls[2]))
+        return True
+    return False
+
+
+GRACE_MS = M.GRACE_MS
+DEFAULT_CLOSURE_MS = 5000      # plugin provider default (Arca.Gen.defaultClosureTimeoutMs, pinned by C06.constants_as_modelled)
+C06_TOLERANCE_MS = 2000
+
+
+def c06_foreach_bound(case):
+    """grace period of every nesting level (the parent run, every item run, nested: every inner item run) + the closure
+    timeout of the sub-workflow's plugin step + a deployment that was in flight and cannot be interrupted + tolerance"""
+    levels = 3 if case.get("nested") else 2
+    closure = case.get("closure_ms", -1)
+    if closure is None or closure < 0:
+        closure = DEFAULT_CLOSURE_MS
+    return levels * GRACE_MS + closure + max(0, case.get("deploy_ms") or 0) + C06_TOLERANCE_MS
+
+
+def mon_c06_foreach(case, verdict, chk):
+    """C06 on loops: after the caller's cancel the run returns within the bound - whatever the number of queued items -,
+    queued items do not begin after the cancel, nothing is left running"""
+    if case.get("close_after_ms", -1) < 0 or "skip" in case:
+        return
+    res = case.get("result", {}) or {}
+    rep = {"kind": "impl-counterexample", "case": slim(case)}
+    if "panic" in case:
+        return  # C07 / C13
+    if not res.get("returned"):
+        chk.violation("C06:no-return-after-cancel", "Execute of a workflow with a foreach step (%d items, parallelism %d) did not "
+                      "return within 60 s after its context was cancelled" % (case.get("n", 0), case.get("parallelism", 0)),
+                      dict(rep, dump=case.get("dump")))
+        return
+    if not case.get("cancelled"):
+        return
+    bound = c06_foreach_bound(case)
+    if case.get("after_cancel_ms", 0) > bound:
+        chk.violation("C06:cancel-bound-exceeded:foreach",
+                      "Execute returned %d ms after the cancellation; bound %d ms (grace periods + closure timeout + deployment in "
+                      "flight + tolerance); %d items, parallelism %d" %
+                      (case["after_cancel_ms"], bound, case.get("n", 0), case.get("parallelism", 0)),
+                      dict(rep, bound_ms=bound, after_cancel=(late_starts(case) or [0, 0, None])[2]))
+        return
+    if check_late_starts("C06", case, chk, rep):
+        return
+    if case.get("balance", 0) != 0 or case.get("still_running", 0) != 0:
+        chk.violation("C06:left-running-after-cancel", "after the cancelled run returned: deploy balance %s, handlers still running %s" %
+                      (case.get("balance"), case.get("still_running")), rep)
+
+
 def mon_c13_probe(case, verdict, chk):
     """optional stream `foreach-probe` (instrumented provider copy, see harness/foreach_probe_overlay.py)"""
     res = case.get("result", {}) or {}
@@ -367,16 +469,83 @@ def probe_n(tier):
     return 40 if tier == "thorough" else 0   # needs a second harness build: thorough tier only
 
 
+# ---- long-queue cases: how long is "long" ----------------------------------------------------------------------------------------
+
+GO_UNITS_MS = {"time.Nanosecond": 1e-6, "time.Microsecond": 1e-3, "time.Millisecond": 1.0, "time.Second": 1000.0,
+               "time.Minute": 60000.0, "time.Hour": 3600000.0}
+
+
+def go_duration_ms(expr, consts, depth=0):
+    """milliseconds of a Go duration expression built from literals, time units, `*` and named constants of the provider
+    (`5 * time.Second`, `queuedItemLogInterval`, `time.NewTimer(x)`); None when it cannot be evaluated"""
+    import re
+    expr = expr.strip()
+    m = re.match(r"^[\w.]+\((.*)\)$", expr)
+    if m:
+        expr = m.group(1).strip()
+    if depth > 5 or not expr:
+        return None
+    val = 1.0
+    seen_unit = False
+    for f in expr.split("*"):
+        f = f.strip()
+        f = re.sub(r"^time\.Duration\((.*)\)$", r"\1", f).strip()
+        if re.match(r"^\d+(\.\d+)?$", f):
+            val *= float(f)
+        elif f in GO_UNITS_MS:
+            val *= GO_UNITS_MS[f]
+            seen_unit = True
+        elif ("foreach.timeconst." + f) in consts:
+            sub = go_duration_ms(consts["foreach.timeconst." + f], consts, depth + 1)
+            if sub is None:
+                return None
+            val *= sub
+            seen_unit = True
+        else:
+            return None
+    return val if seen_unit else None
+
+
+def foreach_timer_ms(consts=None):
+    """the longest time constant / timer argument the fact extractor found inside the foreach provider (0 = none)"""
+    if consts is None:
+        try:
+            import os
+            import vcheck
+            consts = json.load(open(os.path.join(vcheck.BUILD, "facts.json"))).get("consts", {})
+        except Exception:
+            consts = {}
+    best = 0
+    for k, v in consts.items():
+        if k.startswith("foreach.timeconst.") or k.startswith("foreach.timer."):
+            d = go_duration_ms(v, consts)
+            if d is not None and d < 3600000:
+                best = max(best, int(d))
+    return best
+
+
+def long_args(tier):
+    """queue waits of the long-queue cases: several seconds, and longer than every timer found in the provider (capped at
+    30 s, which keeps a check bounded if someone adds a very long timer; the broken fact is reported regardless)"""
+    hold = min(30000, max(6000, foreach_timer_ms() + 1500))
+    return ["-long", "5" if tier == "thorough" else "1", "-longms", str(hold)]
+
+
+def queue_n(tier):
+    return 6 if tier == "thorough" else 2
+
+
 SPEC = {
     "module": "Arca.Props.C13",
     "theorems": THEOREMS,
     "pins": FOREACH_PINS,
     "streams": [
         {"name": "foreach",
-         "harness": lambda t, s: ["foreach", "-n", str(foreach_n(t)), "-seed", str(s), "-tier", t],
+         "harness": lambda t, s: ["foreach", "-n", str(foreach_n(t)), "-seed", str(s), "-tier", t] + long_args(t),
          "driver": lambda f: ["foreach"], "monitor": mon_c13_foreach, "nontrivial": nontrivial, "sample": sample},
         {"name": "foreach-close",
-         "harness": lambda t, s: ["foreach", "-close", "-n", str(close_n(t)), "-seed", str(s + 500), "-tier", t],
+         "harness": lambda t, s: ["foreach", "-close", "-n", str(close_n(t)), "-seed", str(s + 500), "-tier", t,
+                                  "-queue", str(queue_n(t))],
          "driver": lambda f: ["foreach"], "monitor": mon_c13_foreach, "nontrivial": lambda c: bool(c.get("cancelled")),
          "sample": sample},
         {"name": "foreach-probe",
@@ -391,8 +560,29 @@ SPEC = {
              "out-of-order completion); the close stream cancels the parent context at a random instant (non-trivial = the "
              "cancellation hit the run; checked: Execute returns, nothing left running, bound kept, every index accounted for); "
              "thorough only: the probe stream closes 150..250-item loops within 1..2 ms and counts overlapping sub-workflow "
-             "Executes inside an instrumented copy of the provider (non-trivial = closed while items were executing)"),
+             "Executes inside an instrumented copy of the provider (non-trivial = closed while items were executing); "
+             "long-queue cases (1, thorough 5): items stay queued behind the limit for >= 6 s and longer than every timer constant "
+             "found in the provider; cancel-queue cases (2, thorough 6): 60..200 never-ending items, parallelism 1..3, deployments "
+             "of 250..350 ms that cannot be interrupted, cancelled while the first items deploy: no queued item may begin after the "
+             "cancel (counted by log sequence numbers)"),
 }
+
+# C06 on loops (registered in props.py: PROPS["C06"]["streams"].append(props_c13.S_C06_FOREACH))
+S_C06_FOREACH = {
+    "name": "foreach-cancel",
+    "harness": lambda t, s: ["foreach", "-close", "-n", "30" if t == "quick" else "250", "-seed", str(s + 700), "-tier", t,
+                             "-queue", "3" if t == "quick" else "12"],
+    "driver": None, "monitor": mon_c06_foreach, "nontrivial": lambda c: bool(c.get("cancelled")),
+    "sample": lambda c: {k: c.get(k) for k in ("id", "class", "n", "parallelism", "close_after_ms", "cancelled", "after_cancel_ms",
+                                               "deploy_ms", "closure_ms", "result", "balance")},
+}
+C06_FOREACH_THEOREMS = ["Arca.Props.C06.queued_items_watch_the_close", "Arca.Props.C06.foreach_close_starts_nothing",
+                        "Arca.Props.C06.foreach_close_work_bounded"]
+C06_FOREACH_PINS = ["step_foreach_provider_runningStep_executeSubWorkflows"]
+C06_FOREACH_RULE = ("; foreach workflows (0..40 items, thorough 200; parallelism 1..n+1; nested loops) cancelled at a random instant, "
+                    "and cancel-queue cases: 60..200 never-ending items with parallelism 1..3, uninterruptible deployments of "
+                    "250..350 ms, closure timeout 100 ms, cancelled while the first items deploy and all others are queued - the "
+                    "return bound must hold whatever the number of queued items and no queued item may begin after the cancel")
 
 
 # ---- stand-alone: violations + histograms ------------------------------------------------------------------------------------------
